@@ -18,7 +18,7 @@ Next == \/ \E F \in FaultSets : Reconcile(F)
         \/ \E n \in Nodes : RScheduled(n)
         \/ \E h \in BOOLEAN, np \in BOOLEAN : RUnschedulable(h, np)
         \/ RPreempted \/ RExpire \/ RDelete
-        \/ \E w \in {"other", "same"} : RBind(w)
+        \/ \E w \in {"other", "same", "gone"} : RBind(w)
         \/ PodDelete \/ PodReady
         \/ \E n \in Nodes, rdy \in BOOLEAN : PodReplace(n, rdy)
         \/ (now < MaxNow /\ Tick(1))
